@@ -158,9 +158,10 @@ def ref_override(t, kind):
 
 def mutate_point(rng, t):
     """Single-point structural mutation of a term (guaranteed different term)."""
-    nodes = list(T.walk(t))
+    from ..shrink import _positions, _replace_at
+    positions = list(_positions(t))
     for _ in range(20):
-        target = rng.choice(nodes)
+        pos, target = rng.choice(positions)
         k = target[0]
         if k == "id":
             new = ("id", target[1] + "z", target[2])
@@ -179,17 +180,19 @@ def mutate_point(rng, t):
         elif k == "attr":
             new = ("attr", target[1], target[2] + "z")
         elif k == "un":
-            new = target[2]
+            new = ("un", "not" if target[1] == "neg" else "neg", target[2])
+        elif k == "call" and target[2]:
+            new = ("call", target[1], target[2][::-1]) if len(target[2]) > 1 and \
+                target[2][0] != target[2][-1] else ("call", target[1] + "x" if "." in target[1] else target[1], target[2])
+        elif k == "lam" and target[3]:
+            new = ("lam", target[1], "all" if target[2] == "any" else "any", target[3], target[4])
+        elif k == "np":
+            new = ("np", ("id", target[1][1] + "z", ()), target[2])
         else:
             continue
-        done = [False]
-
-        def f(n):
-            if n is target and not done[0]:
-                done[0] = True
-                return new
-            return n
-        t2 = T.map_term(f, t)
+        if new == target:
+            continue
+        t2 = _replace_at(t, pos, new)
         if t2 != t:
             return t2
     return None
